@@ -130,7 +130,24 @@ fn corpus_for<B: Backend>(seed: u64) -> Vec<Value> {
     let sealed = lk.clone().seal(&ppk).unwrap().to_string();
     texts.push(("seal", "library".into(), sealed.clone()));
     texts.push(("seal", "library, one character changed".into(), flip(&sealed)));
-    let _ = pke_pk_raw;
+    // --- key texts: every key body under every key header, parsed as every key kind
+    // (a reduced build must accept exactly the key texts the full build accepts, kind by kind)
+    {
+        let (_, _, pke_sk_raw, _) = pke_pair::<B>(&ks);
+        let pke_sk_enc = key_bytes(&pke_sk);
+        let _ = pke_sk_raw;
+        let sk_enc = key_bytes(&sk);
+        let bodies: Vec<(&str, Vec<u8>)> = vec![("local key", lk_raw.to_vec()), ("public key", pk_raw.clone()), ("secret key", sk_enc), ("key-sealing public key", pke_pk_raw.clone()), ("key-sealing secret key", pke_sk_enc)];
+        for (target, header) in [("key-local", "local"), ("key-public", "public"), ("key-secret", "secret"), ("key-pkepublic", "public"), ("key-pkesecret", "secret")] {
+            for (bname, body) in &bodies {
+                let text = format!("{}.{header}.{}", ver.k(), crate::util::b64_encode(body));
+                texts.push((target, format!("bytes of a {bname} under the k.{header} header"), text.clone()));
+                if bname.contains(header) || (header == "local" && bname.starts_with("local")) {
+                    texts.push((target, format!("bytes of a {bname} under the k.{header} header, one character changed"), flip(&text)));
+                }
+            }
+        }
+    }
     // --- the full build's verdicts
     let nv = NoValidation::dangerous_no_validation;
     texts
@@ -141,6 +158,11 @@ fn corpus_for<B: Backend>(seed: u64) -> Vec<Value> {
                 "local" => text.parse::<SealedToken<V<B>, Local, Raw, Vec<u8>>>().and_then(|t| t.unseal(&lk, &[], &nv())).map(|u| u.claims.0),
                 "pie" => text.parse::<PieWrappedKey<V<B>, Local>>().and_then(|w| w.unwrap(&wk)).map(|k| key_bytes(&k)),
                 "pw" => text.parse::<PasswordWrappedKey<V<B>, Local>>().and_then(|w| w.unwrap(PASSWORD)).map(|k| key_bytes(&k)),
+                "key-local" => text.parse::<paseto_core::key::Key<V<B>, Local>>().map(|k| key_bytes(&k)),
+                "key-public" => text.parse::<paseto_core::key::Key<V<B>, Public>>().map(|k| key_bytes(&k)),
+                "key-secret" => text.parse::<paseto_core::key::Key<V<B>, paseto_core::version::Secret>>().map(|k| key_bytes(&k)),
+                "key-pkepublic" => text.parse::<paseto_core::key::Key<V<B>, paseto_core::version::PkePublic>>().map(|k| key_bytes(&k)),
+                "key-pkesecret" => text.parse::<paseto_core::key::Key<V<B>, paseto_core::version::PkeSecret>>().map(|k| key_bytes(&k)),
                 _ => text.parse::<SealedKey<V<B>>>().and_then(|w| w.unseal(&pke_sk)).map(|k| key_bytes(&k)),
             };
             json!({"kind": kind, "how": how, "text": text, "verdict": match verdict { Ok(b) => format!("ok:{}", hex::encode(b)), Err(_) => "err".to_string() }})
